@@ -11,16 +11,23 @@
     (kv F|-) (start L) (sub L F|- FO) (subd F) (recon N HTTP) (launch E T) (upd T STATE recon|-|other DELIVERED)
     (kill T HTTP) (drop) (killcore) (term) (exited) (destroy E) (destroyed E OK) (teardown)
     (envs (E STATE T…)…) (own PHASE (T LOCKED STATUS)…) (quiet L (T LIFE STATE [hid])…)
+    (sparse none|exec|agent|both)             from here on the answers the master BUILDS to a RECONCILE lack the optional fields
+                                              executor_id / agent_id / both (harness: sim.SetReconcileOmit); an update that lacks
+                                              a field says so in a 6th field: (upd T STATE REASON DELIVERED noexec|noagent|noids);
+                                              REASON vol = a reconciliation update the master volunteers (harness: (nudge))
     (hide T…) (unhide T…) (mute) (unmute)     what the master can report in answer to a RECONCILE changes
                                               (harness: sim.HideFromReconcile / SetReconcileSilent); a `hid` row of a
                                               quiet point = alive, but the master would not report it
-    envs = GetEnvironments(showAll, showTaskInfos): every environment with the tasks its roles hold (locked);
+    envs = GetEnvironments(showAll, showTaskInfos): every environment with the tasks its roles hold (locked); a row may end
+    in (loose T…): tasks the roles of that environment reference that are NOT locked (environments the harness asked to
+    destroy are left out) — owned by a live environment and not known as owned;
     own = GetTasks: the roster.
   tasks tN, barrier tasks bN (reconciliation updates about tasks nobody knows), environments eN, framework ids fN.
 
-  MONITOR (modelObs = ACCEPT | REJECT:<why>): the trace is replayed as a history of Model/Resubscribe.lean (the
-  layer over Model/Reconcile.lean whose steps `hide`/`unhide`/`mute`/`unmute` change what the master answers) with
-  the configuration the code has NOW (`Spec.C18.codeCfg`, from the regenerated facts): what the master and
+  MONITOR (modelObs = ACCEPT | REJECT:<why>): the trace is replayed as a history of Model/SparseStatus.lean over
+  Model/Resubscribe.lean (the layers over Model/Reconcile.lean whose steps `hide`/`unhide`/`mute`/`unmute` change what the
+  master answers, and `handleSparse` = a message that lacks agent_id / executor_id is handled) with
+  the configuration and the id-copy guards the code has NOW (`Spec.C18.codeCfg`, `Spec.C18.codeGuards`, from the regenerated facts): what the master and
   the harness did become steps (coreStart, coreKill, coreTerm, subscribe, drop, launch, status, reconUpdate,
   release — a teardown the harness asked for is split: `releaseBegin` at (destroy E), `releaseEnd` at (destroyed E OK)
   or at the next synchronisation, so launches recorded in between are interleaved with it as they were in the
@@ -39,7 +46,9 @@
   calls are in that log too, so `orphansKilledEachRound` asks for a KILL of every orphan listed at a quiet point
   that is newer than the latest RECONCILE of that life (scripts with `(stubborn …)`: the orphan outlives its KILL).
   The SUBSCRIBE/SUBSCRIBED pairs of the trace (`Sub`: presented id, assigned id, accepted = a RECONCILE call or a
-  quiet point followed on that stream) are rebuilt too: `identityKept` / `oneFramework` (`Spec.C18.allR`).
+  quiet point followed on that stream) are rebuilt too: `identityKept` / `oneFramework` (`Spec.C18.allR`), and so are the
+  views at the quiet points — every task a listed environment references, and whether it is locked: `heldLocked`
+  (`Spec.C18.allS`). "Owned" of a KILL = locked in the roster OR referenced by a listed environment, locked or not.
   hyp = late_orphan_never_reconciled when only the orphan clauses fail and the replayed history violates
   `noLateOrphans` (the excluded hypothesis of C18_visible_orphans_killed_partial);
   hyp = reconnect_kills_owned when only `ownedSpared` fails, the code has no roster test, and the replayed
@@ -60,12 +69,13 @@ inductive TEv where
   | subd (f : Nat)
   | recon (n http : Nat)
   | launch (e t : Nat)
-  | upd (t : Nat) (s : MState) (r : Reason) (d : Bool)
+  | upd (t : Nat) (s : MState) (r : Reason) (d : Bool) (vol : Bool) (noAgent noExec : Bool)
   | kill (t http : Nat)
   | drop | killcore | term | exited | teardown
   | destroy (e : Nat)
   | destroyed (e : Nat) (ok : Bool)
-  | envs (rows : List (Nat × List Nat))
+  | envs (rows : List (Nat × List Nat × List Nat))   -- environment, tasks it holds locked, tasks it references unlocked
+  | sparse (noAgent noExec : Bool)
   | own (phase : String) (rows : List (Nat × Bool))
   | quiet (l : Nat) (rows : List (Nat × Nat × MState × Bool))
   | hide (ts : List Nat)
@@ -95,7 +105,15 @@ def parseEv : SExp → Option TEv
   | .list [.atom "recon", n, h] => do pure (.recon (← n.nat?) (← h.nat?))
   | .list [.atom "launch", e, t] => do pure (.launch (← envRef e) (← taskRef t))
   | .list [.atom "upd", t, .atom s, .atom r, d] => do
-    pure (.upd (← taskRef t) (← stateOfShort s) (if r == "recon" then .recon else .none) (← d.bool?))
+    pure (.upd (← taskRef t) (← stateOfShort s) (if r == "recon" || r == "vol" then .recon else .none) (← d.bool?) (r == "vol") false false)
+  | .list [.atom "upd", t, .atom s, .atom r, d, .atom om] => do
+    let (na, ne) ← (match om with
+      | "noexec" => some (false, true) | "noagent" => some (true, false) | "noids" => some (true, true) | _ => none)
+    pure (.upd (← taskRef t) (← stateOfShort s) (if r == "recon" || r == "vol" then .recon else .none) (← d.bool?) (r == "vol") na ne)
+  | .list [.atom "sparse", .atom om] =>
+    match om with
+    | "none" => some (.sparse false false) | "exec" => some (.sparse false true)
+    | "agent" => some (.sparse true false) | "both" => some (.sparse true true) | _ => none
   | .list [.atom "kill", t, h] => do pure (.kill (← taskRef t) (← h.nat?))
   | .list [.atom "drop"] => some .drop
   | .list [.atom "killcore"] => some .killcore
@@ -106,7 +124,10 @@ def parseEv : SExp → Option TEv
   | .list [.atom "destroyed", e, ok] => do pure (.destroyed (← envRef e) (← ok.bool?))
   | .list (.atom "envs" :: rows) => do
     pure (.envs (← rows.mapM? fun
-      | .list (e :: _ :: ts) => do pure ((← envRef e), (← ts.mapM? taskRef))
+      | .list (e :: _ :: ts) => do
+        let loose := ts.filterMap fun | .list (.atom "loose" :: ls) => some ls | _ => none
+        let held := ts.filter fun | .list _ => false | _ => true
+        pure ((← envRef e), (← held.mapM? taskRef), (← loose.flatten.mapM? taskRef))
       | _ => none))
   | .list (.atom "own" :: .atom phase :: rows) => do
     pure (.own phase (← rows.mapM? fun | .list [t, l, _] => do pure ((← taskRef t), (← l.bool?)) | _ => none))
@@ -136,28 +157,36 @@ structure Mon where
   terminating : Bool := false
   refused : List Nat := []        -- environments whose DestroyEnvironment request the core refused
   envHeld : List (Nat × Nat) := []  -- (task, environment): what GetEnvironments last said the environments hold
+  envLoose : List (Nat × Nat) := [] -- … and reference without the task being locked
+  sparse : Bool × Bool := (false, false)  -- what the master's own answers to a RECONCILE lack at present (agent_id, executor_id)
   err : Option String := none
 
 def Mon.fail (m : Mon) (why : String) : Mon := if m.err.isSome then m else { m with err := some why }
 
 def Mon.s (m : Mon) : St := m.r.base
 
-def Mon.rstep (m : Mon) (x : RStep) : Mon :=
-  let r' := Reconcile.rstep codeCfg m.r x
-  { m with r := r', hist := x :: m.hist, window := (r'.base.roster.map (·.id) ++ m.window).eraseDups }
+def Mon.sstep (m : Mon) (x : SStep) : Mon :=
+  let r' := Reconcile.sstep codeGuards codeCfg m.r x
+  { m with r := r', hist := x.erase :: m.hist, window := (r'.base.roster.map (·.id) ++ m.window).eraseDups }
+
+def Mon.rstep (m : Mon) (x : RStep) : Mon := m.sstep (.r x)
 
 def Mon.step (m : Mon) (x : Step) : Mon := m.rstep (.base x)
 
-/-- read and handle everything that is on the stream behind an already-read SUBSCRIBED -/
-def Mon.drain (m : Mon) : Nat → Mon
+/-- read and handle everything that is on the stream behind an already-read SUBSCRIBED; `fl` = the optional fields
+    (agent_id, executor_id) the messages handled now lack -/
+def Mon.drain (m : Mon) (fl : Bool × Bool) : Nat → Mon
   | 0 => m
   | fuel + 1 =>
     if m.s.hello.isSome || !m.s.alive then m
-    else if !m.s.inbox.isEmpty then (m.step .handle).drain fuel
-    else if !m.s.queue.isEmpty then (m.step .read).drain fuel
+    else if !m.s.inbox.isEmpty then
+      (if fl == (false, false) then m.step .handle else m.sstep (.handleSparse fl.1 fl.2)).drain fl fuel
+    else if !m.s.queue.isEmpty then (m.step .read).drain fl fuel
     else m
 
-def Mon.settle (m : Mon) : Mon := m.drain (2 * (m.s.queue.length + m.s.inbox.length) + 2)
+def Mon.settleWith (m : Mon) (fl : Bool × Bool) : Mon := m.drain fl (2 * (m.s.queue.length + m.s.inbox.length) + 2)
+
+def Mon.settle (m : Mon) : Mon := m.settleWith (false, false)
 
 /-- the KILL calls of every teardown still in flight in the model have returned by now -/
 def Mon.finishTeardowns (m : Mon) : Mon := m.s.tearing.foldl (fun m d => m.step (.releaseEnd d.env)) m
@@ -245,21 +274,27 @@ def Mon.onEv (m : Mon) (kv0 : Option Nat) : TEv → Mon
     let before := m.s.queue.length
     let m := m.step .read
     let ans := (m.s.queue.drop before).filter (fun u => u.2.2 == .recon)
-    ({ m with seen := s!"recon {m.s.life}" :: m.seen, expAns := m.expAns ++ ans }).settle
+    -- the answers are built by the master: they lack what it omits at present
+    ({ m with seen := s!"recon {m.s.life}" :: m.seen, expAns := m.expAns ++ ans }).settleWith m.sparse
   | .launch e t =>
     let m := m.settle
     let m' := m.step (.launch e t)
     if m'.s.tasks.length == m.s.tasks.length + 1 then m' else m'.fail s!"task {t} launched while the model's core could not launch"
-  | .upd t st r d =>
+  | .upd t st r d vol na ne =>
     if r == .recon then
       if !d then m else
       if t ≥ barrierBase then (m.step (.reconUpdate t st)).settle
+      -- a reconciliation update the master volunteers about a task it knows: handled with the fields it carries
+      else if vol then (m.step (.reconUpdate t st)).settleWith (na, ne)
       else
         -- the SUBSCRIBED may not have been matched with its RECONCILE yet: then the answer is not predicted yet
         match removeOneUpd (t, st, Reason.recon) m.expAns with
-        | some rest => ({ m with expAns := rest }).settle
+        | some rest =>
+          let m := if (na, ne) == m.sparse then m
+            else m.fail s!"reconciliation answer about {t} lacks (agent_id, executor_id) = {(na, ne)}, the model's master omits {m.sparse}"
+          ({ m with expAns := rest }).settle
         | none => m.fail s!"reconciliation answer ({t} {repr st}) that the model's master did not give"
-    else (m.step (.status t st)).settle
+    else (m.step (.status t st)).settleWith (na, ne)
   | .kill t _ =>
     if m.terminating then
       if (m.s.tasks.any (·.id == t)) then m else m.fail s!"KILL of unknown task {t} during shutdown"
@@ -275,8 +310,10 @@ def Mon.onEv (m : Mon) (kv0 : Option Nat) : TEv → Mon
   | .teardown => m.fail "TEARDOWN call"
   | .destroy e => if m.terminating || m.refused.contains e then m else m.settle.step (.releaseBegin e)
   | .destroyed e _ => if m.terminating then m else m.settle.step (.releaseEnd e)
+  | .sparse na ne => { m with sparse := (na, ne) }
   | .envs rows =>
-    let m := { m with envHeld := rows.flatMap fun (e, ts) => ts.map fun t => (t, e) }
+    let m := { m with envHeld := rows.flatMap (fun (e, ts, _) => ts.map fun t => (t, e)),
+                      envLoose := rows.flatMap (fun (e, _, ls) => ls.map fun t => (t, e)) }
     if m.terminating || !m.s.alive then m else
     -- environments the core has given up by itself (failed deployment): their tasks are released
     let listed := rows.map (·.1)
@@ -293,8 +330,12 @@ def Mon.onEv (m : Mon) (kv0 : Option Nat) : TEv → Mon
     let m := gone.foldl (fun m e => m.step (.release e)) m
     let o := sortS (rows.map fun (t, l) => s!"{t}:{l}")
     let m := if o == rosterRows m.s then m else m.fail s!"GetTasks ({phase}) says {o}, the model's roster is {rosterRows m.s}"
-    if heldRows m.envHeld == heldRows m.s.held then m
-    else m.fail s!"GetEnvironments ({phase}) says the environments hold {heldRows m.envHeld}, the model's environments {heldRows m.s.held}"
+    let m := if heldRows (m.envHeld ++ m.envLoose) == heldRows m.s.held then m
+      else m.fail s!"GetEnvironments ({phase}) says the environments hold {heldRows (m.envHeld ++ m.envLoose)}, the model's environments {heldRows m.s.held}"
+    -- … and which of them are not locked (none, in every reachable state of the model with the code's guards)
+    let looseModel := m.s.held.filter fun p => !lockedIn m.s.roster p.1
+    if heldRows m.envLoose == heldRows looseModel then m
+    else m.fail s!"GetEnvironments ({phase}) says the environments hold {heldRows m.envLoose} WITHOUT the tasks being locked, the model {heldRows looseModel}"
   | .quiet l rows =>
     let m := if m.s.hello.isSome then m.fail s!"quiet point of life {l} with the model's SUBSCRIBED unread: no RECONCILE call was seen after the latest SUBSCRIBED" else m
     let m := m.sync true s!"quiet point of life {l}"
@@ -324,7 +365,7 @@ where
 structure Obs where
   /-- (position, environments listed) of every `(envs …)` marker of the trace: lets a KILL be attributed to a
       clean-up the core started by itself (the environment is gone at the next snapshot) -/
-  snaps : List (Nat × List (Nat × List Nat)) := []
+  snaps : List (Nat × List (Nat × List Nat × List Nat)) := []
   pos : Nat := 0
   dead : List Nat := []             -- tasks whose last reported state is terminal
   log : List Out := []              -- newest first
@@ -339,6 +380,9 @@ structure Obs where
   envOf : List (Nat × Nat) := []
   /-- the SUBSCRIBE calls (newest first) with what the master answered and whether the core went on under it -/
   subs : List Sub := []
+  /-- one view per snapshot: every task a listed environment (not one the harness asked to destroy, not during the core's
+      shutdown) references, and whether it is locked -/
+  views : List (List (Nat × Bool)) := []
 
 def Obs.onEv (o : Obs) (ev : TEv) : Obs :=
   let o := { o with pos := o.pos + 1 }
@@ -355,7 +399,7 @@ def Obs.onEv (o : Obs) (ev : TEv) : Obs :=
     -- a RECONCILE the master took on this stream shows that the SUBSCRIBED handler got past TrackSubscription
     { o with log := .reconcile o.life :: o.log, subs := if http == 202 then acceptHead o.subs else o.subs }
   | .launch e t => { o with envOf := (t, e) :: o.envOf }
-  | .upd t st r d =>
+  | .upd t st r d _ _ _ =>
     let o := if st.terminal && r != .recon then { o with dead := t :: o.dead } else o
     if d then { o with lastReason := Assoc.set o.lastReason t r } else o
   | .own _ rows => { o with own := rows }
@@ -364,12 +408,17 @@ def Obs.onEv (o : Obs) (ev : TEv) : Obs :=
     -- an environment the core no longer lists is being (or has been) cleaned up by the core itself
     let listed := rows.map (·.1)
     let gone := ((o.envOf.map (·.2)).eraseDups.filter fun e => !listed.contains e)
-    { o with destroying := (gone ++ o.destroying).eraseDups, held := rows.flatMap (·.2) }
+    let live := rows.filter fun (e, _, _) => !o.destroying.contains e
+    let view := live.flatMap fun (_, ts, ls) => ts.map (·, true) ++ ls.map (·, false)
+    { o with destroying := (gone ++ o.destroying).eraseDups,
+             -- owned = referenced by a listed environment, whether or not the roster has the task locked
+             held := rows.flatMap (fun (_, ts, ls) => ts ++ ls),
+             views := if o.terminating then o.views else o.views ++ [view] }
   | .term => { o with terminating := true }
   | .kill t _ =>
     let env := Assoc.get o.envOf t
     let goneNext := match env, o.snaps.find? (fun sn => sn.1 > o.pos) with
-      | some e, some sn => !(sn.2.map (·.1)).contains e
+      | some e, some sn => !(sn.2.map (fun x => x.1)).contains e
       | _, _ => false
     let released := o.dead.contains t || goneNext || (match env with | some e => o.destroying.contains e | none => false)
     let why : Why := if o.terminating then .term else
@@ -401,12 +450,13 @@ def processLine (line : String) : String :=
         let m := m.sync true "end of the trace"
         let snaps := (tr.zipIdx.filterMap fun (e, i) => match e with | .envs rows => some (i + 1, rows) | _ => none)
         let o := tr.foldl Obs.onEv { snaps := snaps }
-        let spec := Spec.C18.allR o.log o.subs
+        let spec := Spec.C18.allS o.log o.subs o.views
+        let hl := heldLocked o.views
         let model := match m.err with | none => "ACCEPT" | some w => "REJECT:" ++ (w.replace "\t" " ").replace "\n" " "
         let ids := identityKept o.subs && oneFramework o.subs
         let orphanOk := orphansKilled o.log && orphansKilledEachRound o.log && orphansKilledEachSubscription o.log
-        let onlyOwned := sameIdentity o.log && persistedOnce o.log && orphanOk && ids && updatesNeverKill o.log && !ownedSpared o.log
-        let onlyOrphans := sameIdentity o.log && persistedOnce o.log && ids && updatesNeverKill o.log && ownedSpared o.log && !orphanOk
+        let onlyOwned := sameIdentity o.log && persistedOnce o.log && orphanOk && ids && updatesNeverKill o.log && hl && !ownedSpared o.log
+        let onlyOrphans := sameIdentity o.log && persistedOnce o.log && ids && updatesNeverKill o.log && ownedSpared o.log && hl && !orphanOk
         let hist := m.hist.reverse
         let hyp :=
           if !spec && onlyOwned && !codeCfg.rosterGuard &&
